@@ -128,7 +128,7 @@ func main() {
 		go func() {
 			defer wg.Done()
 			for id := range ids {
-				s := genSpec(id, run.Rand(fmt.Sprintf("seq-%d", id)), restrict)
+				s := genSpec(id, run.Rand(fmt.Sprintf("seq-%d", id)), restrict, !run.Thorough() || id < 420 || (id/7)%5 == 0)
 				mark("S", s)
 				res := runSequence(s, broker)
 				if id < 4 {
